@@ -89,8 +89,8 @@ macro_rules! mul_backend {
                         if c.op == "tensor_add" {
                             res.data_mut().raw_mut().copy_from_slice(&c.r0);
                         } else {
-                            for w in res.data_mut().raw_mut().iter_mut() {
-                                *w = 0x3333;
+                            for (i, w) in res.data_mut().raw_mut().iter_mut().enumerate() {
+                                *w = crate::fillpat::pat(0x3333, i);
                             }
                         }
                         if c.op == "square" {
@@ -113,8 +113,8 @@ macro_rules! mul_backend {
                         pt.data.raw_mut().copy_from_slice(x.unwrap().raw());
                         if c.op == "plain" {
                             let mut res: GLWE<Vec<u8>> = GLWE::alloc_from_infos(&out);
-                            for w in res.data_mut().raw_mut().iter_mut() {
-                                *w = 0x3333;
+                            for (i, w) in res.data_mut().raw_mut().iter_mut().enumerate() {
+                                *w = crate::fillpat::pat(0x3333, i);
                             }
                             module.glwe_mul_plain(c.off, &mut res, &ga, c.ka, &pt, c.kb, scratch.borrow());
                             fmt_glwe(&res)
@@ -128,8 +128,8 @@ macro_rules! mul_backend {
                         ga.data_mut().raw_mut().copy_from_slice(a.raw());
                         if c.op == "const" {
                             let mut res: GLWE<Vec<u8>> = GLWE::alloc_from_infos(&out);
-                            for w in res.data_mut().raw_mut().iter_mut() {
-                                *w = 0x3333;
+                            for (i, w) in res.data_mut().raw_mut().iter_mut().enumerate() {
+                                *w = crate::fillpat::pat(0x3333, i);
                             }
                             module.glwe_mul_const(c.off, &mut res, &ga, &c.consts, scratch.borrow());
                             fmt_glwe(&res)
@@ -143,8 +143,8 @@ macro_rules! mul_backend {
                         let mut t: GLWETensor<Vec<u8>> = GLWETensor::alloc_from_infos(&in_a);
                         t.data_mut().raw_mut().copy_from_slice(a.raw());
                         let mut res: GLWE<Vec<u8>> = GLWE::alloc_from_infos(&out);
-                        for w in res.data_mut().raw_mut().iter_mut() {
-                            *w = 0x3333;
+                        for (i, w) in res.data_mut().raw_mut().iter_mut().enumerate() {
+                            *w = crate::fillpat::pat(0x3333, i);
                         }
                         let p = tsk_prep.as_ref().unwrap();
                         if !c.stale.is_empty() {
@@ -422,6 +422,7 @@ pub fn run(_args: &[String]) {
     let mut out = stdout.lock();
     for line in stdin.lock().lines() {
         let line = line.unwrap();
+        crate::fillpat::set_from_line(&line);
         let t: Vec<&str> = line.split_whitespace().collect();
         if t.is_empty() {
             continue;
